@@ -20,6 +20,8 @@ def jobs(tier, seed):
         for solves in ((1, 2) if n > 8 else (1, 2, 3)):
             J.append(dict(entry='h_tridiag', args=[n, 0, solves, 0], label=f'tridiag n={n} solves={solves}', cls='tridiag', reach=['solved'],
                           diff=(solves == 2 and n in (2, 3, 7)), eager=False))
+        if n <= 5:
+            J.append(dict(entry='h_tridiag', args=[n, 0, 2, 2], label=f'tridiag n={n} after-cyclic-use', cls='tridiag', reach=['solved'], eager=False))
         if n <= 8:
             J.append(dict(entry='h_tridiag', args=[n, 0, 2, 1], label=f'tridiag n={n} zero-subdiagonals', cls='tridiag', reach=['solved'], eager=False))
     for n in (range(2, 7) if q else range(2, 9)):
